@@ -20,11 +20,27 @@ Exhaustive explorations against the real code:
            that succeeds without consuming are outside the quantifier and skipped.  The implementation
            runs under a budget (process() calls counted through a Context subclass, plus a CPU-time
            alarm), so non-termination is a reported divergence and not a hang.
+  shapes   (family "shapes" of the terms part) every way of ASSOCIATING 2..3 (thorough: 2..4) applications of
+           the binary operator forms + | << >> & / and Lift's * - all binary tree shapes (left-nested,
+           right-nested, mixed) x every operator at every inner node, leaves from {Char a, InSet ab} for two
+           operators (thorough: also String min 0 and EOF; three operators over two leaves) and InSet ab
+           for more - and the 2-operator (thorough: 3) trees with ONE unary constructor (Many lower 0 / 1,
+           Opt, map, Wrapper, `% name`, debug()) on the root or on an operator node below the root; same
+           schedule and same reference as above, i.e. the STRUCTURE of the value is compared (the
+           accumulating operators must flatten a left operand of their own kind and nothing else:
+           a + (b + c) -> [va, [vb, vc]], (a + b) + c -> [va, vb, vc])
   json     every JSON value of depth <= 3 over {0, 7, -3, 2.5, "s", "", "a\"b", true, false, null,
            [], {}}, four whitespace renderings (compact, json.dumps default, indented, padded = JSON
            whitespace around every token), insights.parsr.examples.json_parser.loads vs json.loads
   jsonx    duplicate keys, 3-4 elements, strings made of structural characters, multi-digit numbers,
            nesting up to 12 (30) deep - through loads() and load(file)
+  jsonnum  number literals as text, -?(0|[1-9][0-9]*)(.[0-9]+)? : every integer within +-2 (thorough +-8) of
+           2**31, 2**32, 2**53, 2**63, 2**64, 10**15..17, 10**22, 10**23, 2**100, 2**1023, the largest
+           double, 2**1024, 10**308, 10**309, written as integer / with .0 / with .5; 10**(k-1) and 10**k-1
+           for k = 1..24, 300, 308..311, 400, 1000; fractions with up to 40 digits and up to 400 leading
+           zeros; both signs; six document frames (bare, padded, array, second of three, object value,
+           nested pair); loads() and load(file) vs json.loads, TYPE-exact (int is not float) and VALUE-exact
+           (integers exactly, floats the same double incl. the sign of zero)
   jsonedit every depth <= 2 document with one token deleted or one comma inserted: what json.loads
            rejects must be rejected, what it still accepts must mean the same
   taglang  every tag expression AST of depth <= 3 (bare / quoted tags, regex atoms, ! & | ,), up to
@@ -50,7 +66,7 @@ What the oracle deliberately does not demand (DESIGN.md section 3):
   * no space is put between `!` and its operand in tag expressions (the docs never show one), and
     an unquoted regex atom is always followed by a space (documented: it runs to the next blank).
   * JSON texts outside the documented subset are not generated: leading zeros, single-quoted strings,
-    backslash escapes other than \", exponents, non-ASCII.
+    backslash escapes other than \", exponents (so large / small floats are written out in digits), non-ASCII.
   * the side-stack combinators StartTagName / EndTagName / WithIndent / HangingString (not in the
     statement's list; the INI grammar built on them is C15's), Map / Lift functions raising something
     other than Backtrack (documented to abort the parse), the TEXT of error messages.
@@ -79,7 +95,9 @@ ID = "C19"
 LEVEL = "exploration"
 RULE = ("terms: all grammar terms with <= N nodes over the core alphabet (10 leaves, 10 unary, 11 binary constructors "
         "incl. Lift/Map with Backtrack and one Forward recursion) and all terms with <= N-1 nodes containing an extended "
-        "symbol (None-valued literal, Many lower=3, Opt default 0, naming, debug(), one parser object used twice) x all "
+        "symbol (None-valued literal, Many lower=3, Opt default 0, naming, debug(), one parser object used twice), plus the operator-shape family (all binary trees of 2..K applications of "
+        "+ | << >> & / and Lift's * with every operator at every node, and those trees with one unary constructor on the "
+        "root or on an operator node below it) x all "
         "121 inputs over {a,b,A} of length <= 4 (+ 26 inputs with newlines for PosMarker terms), minus the pairs on "
         "which the reference applies a repetition to a sub-term that succeeds without consuming (outside the "
         "quantifier); one evaluation = one (term, input) pair through process(); __call__ and second-pass runs on the "
@@ -87,7 +105,8 @@ RULE = ("terms: all grammar terms with <= N nodes over the core alphabet (10 lea
         "(a choice/option/repetition/look-ahead continued after a failed sub-term, i.e. backtracking happened) on a "
         "non-empty input. json: all values of depth <= 3 (bounded width) x 4 whitespace renderings, plus closed families "
         "of wider / deeper / duplicate-key / special-scalar documents and single-token edits; non-trivial = the value is "
-        "a container. taglang: all ASTs of depth <= 3 x distinct renderings x 11 tag sets, plus special atoms, deep "
+        "a container; number literals (text, no exponent) at and around the integer / double representation boundaries "
+        "x 6 document frames, type- and value-exact; non-trivial = the literal has more than 15 significant digits. taglang: all ASTs of depth <= 3 x distinct renderings x 11 tag sets, plus special atoms, deep "
         "nesting and single-token deletions; non-trivial = the AST has >= 2 operators of different precedence levels")
 ASSUMPTIONS = [
     "ref/c19_peg.py states the meaning of each combinator as documented in insights/parsr/__init__.py; it is "
@@ -95,7 +114,8 @@ ASSUMPTIONS = [
     "sep_by is read by its docstring: instances of x separated by sep, x (sep x)* or nothing, value = the values of "
     "the matched instances (None, 0, '' and [] included)",
     "json.loads is the meaning of a JSON document; the documented subset is ASCII, no exponent, no leading zeros, "
-    "double-quoted strings, no escapes other than \\\"",
+    "double-quoted strings, no escapes other than \\\"; number literals -?(0|[1-9][0-9]*)(.[0-9]+)? of any length are inside it "
+    "(integers are exact in json.loads, fractions the nearest double)",
     "a tag expression is malformed iff its token list does not derive from expr := term ((|/,) term)*, "
     "term := factor (& factor)*, factor := [!] (atom | '(' expr ')')",
     "bounded: no counterexample within the stated term size / input length / value depth, nothing more",
@@ -106,12 +126,14 @@ BOUNDS = {
               "xref": "<=3 nodes x all inputs, 4 nodes x len<=1",
               "shape_operators": 3, "shape_operators_two_leaves": 2, "shape_wrapped_operators": 2, "xref_shapes_full": 5,
               "json_depth": 3, "json_width": 2, "json_depth3": "one non-atomic child per container",
-              "json_nesting": 12, "tag_depth": 3, "tag_atoms": 5},
+              "json_nesting": 12, "json_number_boundaries": 16, "json_number_span": 2, "json_number_frames": 6,
+              "tag_depth": 3, "tag_atoms": 5},
     "thorough": {"term_nodes": 5, "extended_term_nodes": 4, "input_len": 4, "call_nodes": 4, "xref_ext_full": 3, "xref_short": 2,
                  "xref": "<=4 nodes x all inputs (extended: <=3), larger x len<=2",
                  "shape_operators": 4, "shape_operators_two_leaves": 3, "shape_wrapped_operators": 3, "xref_shapes_full": 5,
                  "json_depth": 3, "json_width": 2, "json_depth3": "all children of depth <= 2",
-                 "json_nesting": 30, "tag_depth": 3, "tag_atoms": 7},
+                 "json_nesting": 30, "json_number_boundaries": 47, "json_number_span": 8, "json_number_frames": 6,
+                 "tag_depth": 3, "tag_atoms": 7},
 }
 CAP_S = {"quick": 300, "thorough": 2400}
 
@@ -1645,6 +1667,8 @@ def units(tier, seed):
 
 
 def unit_weight(u):
+    if u.get("family") == "shapes" or u["part"] == "jsonnum":
+        return 4                        # small units: started first, so a wall-clock cap on a busy machine never drops them
     return {"terms": 3, "xref": 2, "taglang": 2}.get(u["part"], 1)
 
 
@@ -2036,10 +2060,12 @@ TECHNIQUE = ("bounded exhaustive enumeration of grammar terms x inputs (stateles
              "long-lived parser object per term) against a reference PEG interpreter; exhaustive JSON values and single-token "
              "edits vs json.loads; exhaustive tag expressions vs Boolean evaluation")
 LEVEL_TEXT = ("Every grammar term with <= 4 (quick) / <= 5 (thorough) nodes over all listed combinators, built with the "
-              "real operators, is run on every input of length <= 4 over {a,b,A} through process() and __call__ and compared "
+              "real operators, and every association shape of 2..3 (thorough 4) applications of the binary operator forms "
+              "(also under Many / Opt / map / Wrapper / naming), is run on every input of length <= 4 over {a,b,A} through process() and __call__ and compared "
               "with a reference PEG interpreter on accept/reject, end position and value, under a step budget so that "
               "non-termination is a reported divergence. The shipped JSON grammar is compared with json.loads on every value "
-              "of depth <= 3 in four whitespace renderings and on every single-token edit of the depth <= 2 documents, the "
+              "of depth <= 3 in four whitespace renderings, on every single-token edit of the depth <= 2 documents and on number "
+              "literals at and around 2**53, 2**63, 2**64, 10**22, the largest double and 10**308/10**309 (type- and value-exact), the "
               "tag language with Boolean evaluation on every AST of depth <= 3 and 11 tag sets. The statement decided is 'no "
               "counterexample within the bound'; compositional errors (look-ahead inside repetition, choice under sequence "
               "after backtracking, a failed Lift/Map alternative leaving a trace) live at small term sizes, which is why "
